@@ -407,6 +407,19 @@ def gen_short_writes(rng):
             env["ofrags"] = [k, 24 - k] * 100
         else:
             env["ofrags"] = [rng.randrange(1, 5000) for _ in range(300)]
+    if rng.random() < 0.25:
+        # some write calls accept NOTHING and report 0 (the caller has to try again); judged by the oracles only: the model's transport
+        # always accepts at least one byte
+        for env in scn["envs"]:
+            if not env.get("wnone"):
+                env["ozeros"] = sorted(rng.sample(range(0, 40), rng.randrange(1, 8)))
+        scn["oracle_only"] = True
+    elif rng.random() < 0.2:
+        # a write whose data is taken (and delivered) while the call itself reports the transport's timeout error
+        for env in scn["envs"]:
+            env["olate"] = sorted(rng.sample(range(0, 30), rng.randrange(1, 3)))
+        scn["oracle_only"] = True
+        scn["healthy"] = False
     return scn
 
 
@@ -420,6 +433,13 @@ def gen_guards(rng, length=None):
         k = rng.choice(opkinds)
         add_guard_op(rng, k, envs, ops)
     scn = dict(envs=envs, ops=ops, files={0: b"data"})
+    if rng.random() < 0.3:
+        # a streaming_shell generator obtained at one point of the history and iterated at a later one: only the state at ITERATION time counts
+        i = rng.randrange(0, len(ops) + 1)
+        j = rng.randrange(i + 1, len(ops) + 2)
+        dec = rng.random() < 0.5
+        ops.insert(i, dict(op="ss_defer", cmd=b"g", decode=dec))
+        ops.insert(j, dict(op="ss_resume", cmd=b"g", decode=dec))
     if rng.random() < 0.25:
         # a close() whose transport.close() raises, then more operations: judged by the oracle only (`available` must be False)
         i = rng.randrange(0, len(ops) + 1)
@@ -437,6 +457,7 @@ def add_guard_op(rng, k, envs, ops):
     base = dict(maxdata=4096, shell=shell, fs=fs, stat=stat)
     if k.startswith("connect"):
         sim = dict(base)
+        sim["maxdata"] = rng.choice([4096, 4096, 1024, 600, 1 << 20])     # devices announcing less than the legacy 4096 exist too
         op = dict(op="connect", rt=1024, tt=1024, at=1024)
         if k == "connect_fail_nokeys":
             sim["auth"] = dict(accept=None, pubkey_ok=True)
@@ -481,9 +502,15 @@ def gen_stall(rng):
         if op["op"] == "connect":
             op["at"] = rng.choice([100, 2048, 10240])
     env = base["envs"][0]
-    kind = rng.choice(["silent", "silent", "eof", "trickle", "flood_foreign", "flood_unexpected"])
+    kind = rng.choice(["silent", "silent", "eof", "trickle", "flood_foreign", "flood_unexpected", "keepalive"])
     sim = env["sim"]
-    if kind == "silent":
+    if kind == "keepalive":
+        # the service never finishes and only sends empty writes: nothing is ever yielded to the caller, yet traffic for its stream keeps coming
+        sim["keepalive"] = rng.choice([40, 300])
+        sim["never_close"] = True
+        env["dt"] = rng.choice([1, 20, 100])
+        env["frags"] = []
+    elif kind == "silent":
         sim["silent_after"] = rng.randrange(0, 14)
     elif kind == "eof":
         env["faults"] = [("in", rng.randrange(0, 400), "eof")]
@@ -504,6 +531,18 @@ def gen_stall(rng):
     base["stall"] = kind
     base["healthy"] = False
     return base
+
+
+def gen_trickle_big(rng):
+    """One packet with a payload far above 64 KiB whose bytes arrive in 16 KiB reads, each quickly, the whole of it taking many times
+    read_timeout_s: the wait for ONE packet's payload is bounded by read_timeout_s as a whole."""
+    size = rng.choice([200000, 400000, 1000000])
+    blob = rand_bytes(rng, 1000) * (size // 1000)
+    sim = dict(maxdata=1 << 20, shell={b"c0": [blob]}, burst=False)
+    env = dict(sim=sim, dt=rng.choice([150, 200, 300]), frags=[16384] * 200)
+    kind = rng.choice(["shell", "exec_out", "streaming_shell"])
+    ops = [connect_op(rng), dict(op=kind, cmd=b"c0", rt=1024, tt=1024, decode=False)]
+    return dict(envs=[env], ops=ops, stall="trickle_big", healthy=False)
 
 
 def gen_slow(rng):
